@@ -95,8 +95,9 @@ static int script_legal(jval *op, int self)
 	if (!strcmp(a, "none")) return 0;
 	if (!strcmp(a, "free"))
 		return alloc[e] && finreq[e] != 1 && finreq[e] != 2 && !(self == e && kind_sig(e));
-	if (!strcmp(a, "add") || !strcmp(a, "del") || !strcmp(a, "rmt") || !strcmp(a, "act") || !strcmp(a, "prio"))
+	if (!strcmp(a, "add") || !strcmp(a, "del") || !strcmp(a, "rmt") || !strcmp(a, "prio"))
 		return alloc[e];
+	if (!strcmp(a, "act")) return alloc[e] && !(self == e && kind_sig(e));
 	if (!strcmp(a, "later")) return alloc[e] && !finreq[e];
 	if (!strcmp(a, "fin")) return alloc[e] && !finreq[e];
 	if (!strcmp(a, "exit") || !strcmp(a, "once")) return n_once() < 2;
